@@ -54,8 +54,12 @@ def gen_spec(rng):
     if r < 0.82:
         return {"kind": "imputer", "method": rng.choice(["drift", "linear", "nearest", "mean",
                                                          "median", "ffill", "bfill"])}
-    if r < 0.88:
+    if r < 0.86:
         return {"kind": "cos"}
+    if r < 0.9:
+        # (not invertible, not index-preserving: here for the clause about the TAG - a
+        # transformer is judged index-preserving by what its class declares)
+        return {"kind": rng.choice(["acf", "pacf"])}
     ts, positive = [], True
     for _ in range(rng.randint(1, 2)):
         t = C.gen_transformer(rng)
@@ -71,6 +75,9 @@ def build(spec):
     if k == "cos":
         from sktime.transformations.series.cos import CosineTransformer
         return CosineTransformer()
+    if k in ("acf", "pacf"):
+        from engines.purity import build_series_transformer
+        return build_series_transformer(spec)
     if k == "ttf_t":
         return C.build({"kind": "ttf", "transformers": spec["transformers"],
                         "forecaster": {"kind": "naive", "strategy": "last", "sp": 1,
@@ -102,7 +109,7 @@ def _with_base(spec, **kw):
 def _needs_pos(spec):
     if spec["kind"] == "ttf_t":
         return any(C.needs_positive(t) for t in spec["transformers"])
-    return C.needs_positive(spec) if spec["kind"] not in ("cos", "hampel", "imputer") else False
+    return C.needs_positive(spec) if spec["kind"] not in ("cos", "hampel", "imputer", "acf", "pacf") else False
 
 
 def _min_len(spec):
@@ -118,6 +125,8 @@ def _min_len(spec):
             need = max(need, 12)
         if b["kind"] == "hampel":
             need = max(need, b.get("window_length", 5) + 4)
+        if b["kind"] in ("acf", "pacf"):
+            need = max(need, 14)
     return need
 
 
@@ -129,7 +138,8 @@ def generate(prop, rng, tier):
         n0 += 10
     ops = [{"op": "fit", "n": n0}]
     total = n0
-    minstretch = _min_len(spec) if _base(spec)["kind"] in ("hampel",) or spec["kind"] == "ttf_t" else 1
+    minstretch = _min_len(spec) if _base(spec)["kind"] in ("hampel", "acf", "pacf") \
+        or spec["kind"] == "ttf_t" else 1
     if _base(spec)["kind"] == "imputer":
         minstretch = 4
     for _ in range(rng.randint(2, 6 if not big else 10)):
@@ -224,7 +234,8 @@ def execute(prop, scen):
     full2 = _series(scen, c)
     y, y2 = full.iloc[PRE:], full2.iloc[PRE:]
     res.fault("index_shift")
-    res.real.update(C.class_names(spec) if kind not in ("cos", "ttf_t") else
+    res.real.update(C.class_names(spec) if kind not in ("cos", "ttf_t", "acf", "pacf") else
+                    {"transformations.series.acf.%s" % kind} if kind in ("acf", "pacf") else
                     {"transformations.series.cos.CosineTransformer"} if kind == "cos" else
                     C.class_names({"kind": "ttf", "transformers": spec["transformers"],
                                    "forecaster": {"kind": "naive"}}))
